@@ -588,6 +588,10 @@ class Assembler:
                 if s.is_id(k, 'mut') and (s.is_p(k - 1, '(') or s.is_p(k - 1, ',')) and s.is_id(k + 1):
                     ed.delete(s.t[k][1], s.t[k + 1][1])
                     self.fired.add('6b:drop-mut-binding-in-assumed-signature')
+            for k in range(item.k_first, fp.k_popen):
+                if s.is_id(k, 'async'):
+                    ed.delete(s.t[k][1], s.t[k + 1][1])
+                    self.fired.add('21:async-fn-as-sequential-fn')
             ed.replace(body_a + 1, body_b - 1, ' unimplemented!() ')
             ed.insert(item.start, '#[verifier::external_body]\n', order=-2)
             self.fired.add('11:assumed-contract(external_body)')
@@ -605,6 +609,42 @@ class Assembler:
                     ed.replace(s.t[k][1], s.t[k][2], 'verif_self')
             self.fired.add('17:mut-self-receiver')
         self.mut_refs(s, fp, ed, spec, fnname)
+        # 21: `async fn` as the sequential function it denotes (unit option `strip_async = true` on the item; Verus: "async
+        # is not supported"): the `async` qualifier is deleted from the signature and every postfix `.await` from the body.
+        # What this DROPS: the suspension points -- the proof is about the value the future resolves to when it is driven to
+        # completion without interference at the awaits (lock acquisitions `x.write().await` become plain calls with an
+        # assumed contract); interleavings with other tasks at those points are not modelled and are listed as not decided.
+        # An `async` block or `async move` closure inside the body is NOT handled (unsupported construct, exit 2).
+        if spec.get('strip_async'):
+            hit = False
+            for k in range(item.k_first, fp.k_popen):
+                if s.is_id(k, 'async'):
+                    ed.delete(s.t[k][1], s.t[k + 1][1])
+                    hit = True
+            if not hit:
+                raise ExtractError('lost anchor: fn %s is not an async fn' % fnname)
+            for k in range(fp.k_body_open + 1, fp.k_body_close):
+                if s.is_id(k, 'async'):
+                    raise ExtractError('unsupported construct: async block inside fn %s' % fnname)
+                if s.is_id(k, 'await') and s.is_p(k - 1, '.'):
+                    ed.delete(s.t[k - 1][1], s.t[k][2])
+            self.fired.add('21:async-fn-as-sequential-fn')
+        # 22: eta-expansion of a tuple-variant constructor used as a function value (Verus: "does not yet support using a
+        # datatype constructor as a function value"): `.map_err(Reject::Verification)` becomes
+        # `.map_err(|verif_x: Error| -> (verif_o: Reject) ensures verif_o == Reject::Verification(verif_x) { Reject::Verification(verif_x) })`
+        # -- the language's own meaning of the constructor as a function, with the closure's strongest postcondition; the unit
+        # names the constructor path and the two types (`[[item.eta]] path = .. arg = .. ty = ..`), rustc checks them
+        for et in spec.get('eta', []):
+            want = extract._tok_strings(et['path'])
+            hit = False
+            for k in range(fp.k_body_open + 1, fp.k_body_close - len(want)):
+                if all(s.s(k + q) == want[q] for q in range(len(want))) and (s.is_p(k - 1, '(') or s.is_p(k - 1, ',')) \
+                        and (s.is_p(k + len(want), ')') or s.is_p(k + len(want), ',')):
+                    ed.replace(s.t[k][1], s.t[k + len(want) - 1][2],
+                               '|verif_x: %s| -> (verif_o: %s) ensures verif_o == %s(verif_x) { %s(verif_x) }' % (et['arg'], et['ty'], et['path'], et['path']))
+                    hit = True
+            if hit:
+                self.fired.add('22:eta-expand-constructor-as-function')
         self.body_edits(s, fp, ed)
         loops = fp.loops()
         for lp in spec.get('loop', []):
